@@ -14,6 +14,7 @@ def main(tier, seed, replay):
         k.must_find("MC_Mut_F9", mc_consts(impl="ImplF9"), inv)
         tr = k.validate_profile("core", 150)
         k.validate_profile("rates", 100)
+        k.validate_profile("split", 60)
         k.validate_profile("vis_black", 60)
         k.validate_profile("vis_white", 60)
         k.validate_profile("rel", 80, monitors_only=True)
@@ -35,6 +36,7 @@ def main(tier, seed, replay):
         k.must_find("MC_Vis_F14", mc_consts(impl="ImplF14", policy="white", kinds=("spawn", "setvis"), ops=5), inv)
         tr = k.validate_profile("core", 3000)
         k.validate_profile("rates", 2000)
+        k.validate_profile("split", 1500)
         k.validate_profile("vis_black", 1500)
         k.validate_profile("vis_white", 1500)
         k.validate_profile("rel", 2500, monitors_only=True)
